@@ -586,5 +586,9 @@ M('C13', 'signer-pool-without-fk', 'mithril-signer/src/dependency_injection/buil
   '            &[ConnectionOptions::EnableForeignKeys],\n        )?\n        .build_pool(pool_size)', '            &[],\n        )?\n        .build_pool(pool_size)',
   ['EnableForeignKeys'], 'signer cardano_tx pool built without the option')
 M('C13', 'streamer-skips-any-rollback-at-or-after-start', 'internal/cardano-node/mithril-cardano-node-chain/src/chain_scanner/chain_reader_block_streamer.rs',
-  'if rollback_slot_number == self.from.slot_number {', 'if rollback_slot_number >= self.from.slot_number {',
+  '&& rollback_slot_number == self.from.slot_number;', '&& rollback_slot_number >= self.from.slot_number;',
   ['skipped only when'], 'roll-backs to any later point dropped')
+M('C13', 'streamer-skip-stateless', 'internal/cardano-node/mithril-cardano-node-chain/src/chain_scanner/chain_reader_block_streamer.rs',
+  'let is_initial_rollback = self.last_polled_point.is_none()\n                    && rollback_slot_number == self.from.slot_number;',
+  'let is_initial_rollback = rollback_slot_number == self.from.slot_number;',
+  ['gated by streamer state'], 'F11 comes back')
